@@ -7,7 +7,7 @@
 // OB: ob_simplelock_T3 tier=thorough unwind=40 timeout=3000 solver=cadical bounds="SimpleLock: T=3 x 2 acquisitions, 36 steps" desc="mutual exclusion + HB, three threads"
 #include "vf.h"
 #include "galois/substrate/SimpleLock.h"
-#include "../../repo/libgalois/src/SimpleLock.cpp"
+#include "../src/SimpleLock.cpp"
 
 extern "C" void vf_sched_simplelock(unsigned n, unsigned steps);
 extern "C" void vf_sched_trylock(unsigned n, unsigned steps);
